@@ -1,6 +1,7 @@
 """Reproducers for the genuine defects found on the pinned tree (see DESIGN.md section 6).
 Run:  PYTHONPATH=/repo /venv/bin/python findings/repro.py
-Prints one line per finding: REPRODUCED (defect present) or ABSENT (fixed)."""
+Prints one line per finding: REPRODUCED (defect present) or ABSENT (fixed).
+With arguments (e.g. F1) it acts as a demonstration: exit 1 + FAIL if that defect is present, else PASS."""
 import fixedint
 from architecture_simulator.simulation.riscv_simulation import RiscvSimulation
 from architecture_simulator.uarch.memory.memory import Memory, AddressingType
@@ -69,6 +70,19 @@ def k1():
     return False, None
 
 
-for name, f in (("F1", f1), ("F2", f2), ("F3", f3), ("F4", f4), ("F5", f5), ("K1", k1)):
-    bad, info = f()
-    print(name, "REPRODUCED" if bad else "ABSENT", info)
+ALL = {"F1": f1, "F2": f2, "F3": f3, "F4": f4, "F5": f5, "K1": k1}
+
+if __name__ == "__main__":
+    import sys
+
+    which = sys.argv[1:] or list(ALL)
+    rc = 0
+    for name in which:
+        bad, info = ALL[name]()
+        print(name, "REPRODUCED" if bad else "ABSENT", info)
+        if bad and len(sys.argv) > 1:
+            print("FAIL: defect %s is present" % name)
+            rc = 1
+    if len(sys.argv) > 1 and rc == 0:
+        print("PASS")
+    sys.exit(rc)
